@@ -141,4 +141,16 @@ theorem readsTotal_ofMemory (s : Memory.St D) : ReadsTotal (Reads.ofMemory s) wh
     obtain ⟨m, _, _, h⟩ := hostname_listed_memory s b hb
     exact ⟨_, h⟩
 
+open Aw.Store in
+/-- … and of the peewee model in every state that satisfies its invariant with a coherent key cache -/
+theorem readsTotal_ofPeewee (s : Peewee.St D) (hi : Peewee.Inv s) (hc : Peewee.CacheOk s) (dec : Ev D → Ev D) :
+    ReadsTotal (Reads.ofPeewee s dec) where
+  get_ok := fun b hb lim st en =>
+    (reads_ok_peewee s hc b ((listed_peewee s dec b).1 hb) lim st en dec).1
+  count_ok := fun b hb st en =>
+    (reads_ok_peewee s hc b ((listed_peewee s dec b).1 hb) (-1) st en dec).2
+  host_ok := fun b hb => by
+    obtain ⟨m, _, _, h⟩ := hostname_listed_peewee s hi dec b hb
+    exact ⟨_, h⟩
+
 end AwProofs.PipelineErrors
